@@ -662,8 +662,11 @@ func (a *Account) Save() error {
 
 	// save code
 	if a.codeIsDirty {
-		if err := a.db.SetContractCode(a.data.CodeHash, a.code); err != nil {
-			return err
+		// the code may be gone again (reverted creation, self-destruct in the same block). There is nothing to store then
+		if len(a.code) > 0 {
+			if err := a.db.SetContractCode(a.data.CodeHash, a.code); err != nil {
+				return err
+			}
 		}
 		a.codeIsDirty = false
 	}
